@@ -8,7 +8,10 @@ def run(chk):
                 "actions Revoke/Issue/MakeUpdate/Apply/Prepend) with the C09 invariants and action properties. "
                 "Replay: every distinct (pre-state, Apply|Prepend, post-state) transition of the bound is constructed on real "
                 "objects (private key held by the harness) and the real Witness.Update / Update.Prepend outcome is compared with the "
-                "spec's (error class, index, signed-accumulator time, u^e = nu_idx recomputed with math/big, unchanged on error). "
+                "spec's (error class, index, signed-accumulator time, Witness.Updated, u^e = nu_idx recomputed with math/big, unchanged on error - Updated included); "
+                "two-step sequences (a failing call, then Apply, on the same objects); RevocationGen3.tla: every sequence of 3 (thorough: 4) applications of ONE "
+                "shared update object to three witnesses lagging behind by different amounts, in every order and with repetition, every window start, witness 1 "
+                "possibly revoked - each step compared with the spec, the other witnesses and the update object must be left as they were. "
                 "Record: random long histories on long-lived real objects, validated event by event by RevocationTrace.tla. "
                 "Non-trivial = distinct transition whose expected result is not 'noop'.")
     chk.assumptions = ["toy keys (64-96 bit moduli): the properties are structural, the arithmetic is the same code path",
@@ -38,6 +41,19 @@ def run(chk):
     res = vplib.vh("rev", ["replay", "--in", path, "--tier", T, "--seed", str(chk.seed)], timeout=3000)
     chk.add_replay(res, "transition_replay")
     chk.exhaustive = True
+    # 3b. one shared update object applied several times to witnesses lagging behind by different amounts
+    gen3 = "Revocation.gen3.%s.cfg" % T
+    g3 = vplib.tlc("RevocationGen3", gen3, workers=1, timeout=1500)
+    seq3 = sorted(set(g3.tagged_raw_json("Q")))
+    if len(seq3) < 10000:
+        raise vplib.Machinery("shared-update generator produced only %d sequences" % len(seq3))
+    chk.add_tlc(g3, "RevocationGen3", gen3, "%d sequences of Apply on one shared update object" % len(seq3))
+    p3 = os.path.join(vplib.sub("c09"), "seq3.ndjson")
+    open(p3, "w").write("\n".join(seq3) + "\n")
+    res = vplib.vh("rev", ["seq3", "--in", p3, "--tier", T, "--seed", str(chk.seed)], timeout=3000)
+    if res["evaluations"] != len(seq3):
+        raise vplib.Machinery("seq3 replayed %d of %d" % (res["evaluations"], len(seq3)))
+    chk.add_replay(res, "shared_update_sequences")
     # 4. record random histories from the real code and validate them against the spec
     trace = os.path.join(vplib.sub("c09"), "trace.ndjson")
     nh = 300 if thorough else 60
